@@ -632,6 +632,54 @@ class ExternalField:
         return d + "\n" + m
 
 
+class GroupField:
+    """`#[bpaf(external(g))] grp: G` where `G` derives a plain parser (no `options`, no `command`):
+    its doc comment becomes the group title unless an explicit `group_help(..)` names one"""
+
+    def __init__(self, ix, doc, explicit):
+        self.name = "grp%d" % ix
+        self.ty_name = "G%d" % ix
+        self.fn_name = "g%d" % ix
+        self.ix = ix
+        self.doc = doc
+        self.explicit = explicit
+
+    def kind(self):
+        return "ext"
+
+    def arity(self):
+        return "optional"
+
+    def names(self):
+        return [], []
+
+    def derive_src(self, indent):
+        return "%s#[bpaf(external(%s))]\n%s%s: %s,\n" % (
+            indent, self.fn_name, indent, self.name, self.ty_name)
+
+    def manual_src(self):
+        return "manual_%s()" % self.fn_name
+
+    def type_src(self):
+        d = ""
+        if self.doc:
+            d += "/// %s\n" % self.doc
+        d += "#[derive(Debug, Clone, PartialEq, Bpaf)]\n"
+        if self.explicit:
+            d += "#[bpaf(group_help(%s))]\n" % rust_str(self.explicit)
+        a, b = "gx%da" % self.ix, "gx%db" % self.ix
+        d += "pub struct %s {\n    %s: bool,\n    %s: Option<u32>,\n}\n" % (self.ty_name, a, b)
+        m = "pub fn manual_%s() -> impl Parser<%s> {\n" % (self.fn_name, self.ty_name)
+        m += "    let %s = long(%s).switch();\n" % (a, rust_str(a))
+        m += "    let %s = long(%s).argument::<u32>(\"ARG\").optional();\n" % (b, rust_str(b))
+        m += "    construct!(%s { %s, %s })" % (self.ty_name, a, b)
+        title = self.explicit or self.doc
+        if title:
+            m += ".group_help(%s)" % rust_str(title)
+        m += "\n}\n"
+        return d + "\n" + m
+
+
 def gen_external(rng, names, ix):
     vs = []
     for vn in rng.sample(VARIANTS, rng.randint(2, 3)):
@@ -664,6 +712,13 @@ def gen_struct(rng, ix):
         if not t.fields:
             t.fields = [gen_named_field(rng, names, tag + "f0")]
         t.external = None
+        t.group = None
+        if rng.random() < 0.2:
+            doc = "group title from the doc comment %d" % ix if rng.random() < 0.7 else None
+            explicit = "explicit group title %d" % ix if rng.random() < 0.6 else None
+            t.group = GroupField(ix, doc, explicit)
+            at = next((i for i, f in enumerate(t.fields) if f.kind() == "pos"), len(t.fields))
+            t.fields.insert(at, t.group)
         if rng.random() < 0.25:
             ext = gen_external(rng, names, ix)
             if ext is not None:
@@ -680,6 +735,11 @@ def gen_struct(rng, ix):
         if rng.random() < 0.15:
             t.explicit[slot] = "explicit %s of %s" % (slot, tag)
     t.vectors = vectors_for([f for f in t.fields if f.kind() != "ext"], rng)
+    if getattr(t, "group", None) is not None:
+        g = t.group
+        t.vectors += [["--gx%da" % g.ix] + v for v in t.vectors[:4]]
+        t.vectors += [["--gx%db" % g.ix, "7"] + v for v in t.vectors[:3]]
+        t.vectors.append(["--gx%db" % g.ix, "x"])
     ext = getattr(t, "external", None)
     if ext is not None:
         extra = []
@@ -731,6 +791,9 @@ def struct_src(t):
     m += "\n}\n"
     ext = getattr(t, "external", None)
     pre = ext.type_src() + "\n" if ext is not None else ""
+    grp = getattr(t, "group", None)
+    if grp is not None:
+        pre += grp.type_src() + "\n"
     return pre + d + "\n" + m
 
 
@@ -741,7 +804,8 @@ def gen_topcmd(rng, ix):
     the command itself"""
     while True:
         t = gen_struct(rng, ix)
-        if not t.tuple and getattr(t, "external", None) is None and not any(
+        if not t.tuple and getattr(t, "external", None) is None and getattr(
+                t, "group", None) is None and not any(
                 f.kind() == "pos" and f.arity() in ("many", "some") for f in t.fields):
             break
     t.kind = "topcmd"
